@@ -20,22 +20,22 @@ Local Open Scope Z_scope.
 (* Install.RunWithContext: `!i.ClientOnly && !isUpgrade && len(resources) > 0` (isUpgrade is
    i.IsUpgrade && i.isDryRun()): ask the cluster which resources already exist *)
 Definition c_inst_check (m : menv) : bool :=
-  negb (m_flag m "ClientOnly") && negb (m_flag m "IsUpgrade" && m_flag m "DryRun") && (0 <? m_n m "Build.len").
+  negb (m_flag m "ClientOnly") && negb (m_flag m "IsUpgrade" && m_flag m "DryRun") && (0 <? m_n m "len(Build)").
 
 (* Install.performInstall: nothing to adopt and something to create -> Create; else
    something to create -> Update(toBeAdopted, resources) *)
-Definition c_inst_create (m : menv) : bool := (m_n m "arg2.len" =? 0) && (0 <? m_n m "arg3.len").
-Definition c_inst_update (m : menv) : bool := 0 <? m_n m "arg3.len".
+Definition c_inst_create (m : menv) : bool := (m_n m "len(arg2)" =? 0) && (0 <? m_n m "len(arg3)").
+Definition c_inst_update (m : menv) : bool := 0 <? m_n m "len(arg3)".
 
 (* Install.availableName: no history -> the name is free *)
-Definition c_avail_free (m : menv) : bool := m_err m "History" || (m_n m "History.len" <? 1).
+Definition c_avail_free (m : menv) : bool := m_err m "History" || (m_n m "len(History)" <? 1).
 (* --replace and the newest revision is uninstalled or failed -> the name may be reused *)
 Definition c_avail_replace (m : menv) : bool :=
   m_flag m "Replace" && (status_eqb (m_s m "revsorted(History)[0].status") SUninstalled
                          || status_eqb (m_s m "revsorted(History)[0].status") SFailed).
 
 (* Install.replaceRelease *)
-Definition c_repl_none (m : menv) : bool := m_err m "History" || (m_n m "History.len" =? 0).
+Definition c_repl_none (m : menv) : bool := m_err m "History" || (m_n m "len(History)" =? 0).
 Definition c_repl_failed (m : menv) : bool := status_eqb (m_s m "revsorted(History)[0].status") SFailed.
 Definition c_repl_pending (m : menv) : bool := is_pending (m_s m "revsorted(History)[0].status").
 
@@ -51,11 +51,11 @@ Definition c_up_fallback (m : menv) : bool :=
   && (status_eqb (m_s m "Last.status") SFailed || status_eqb (m_s m "Last.status") SSuperseded).
 
 (* Upgrade.failRelease *)
-Definition c_fail_cleanup (m : menv) : bool := m_flag m "CleanupOnFail" && (0 <? m_n m "arg2.len").
+Definition c_fail_cleanup (m : menv) : bool := m_flag m "CleanupOnFail" && (0 <? m_n m "len(arg2)").
 (* the filter closure: revisions that count as "previously successful" *)
 Definition c_fail_good (m : menv) : bool :=
   status_eqb (m_s m "it.status") SSuperseded || status_eqb (m_s m "it.status") SDeployed.
-Definition c_fail_none (m : menv) : bool := m_n m "filtered(NewHistory.Run).len" =? 0.
+Definition c_fail_none (m : menv) : bool := m_n m "len(filtered(NewHistory.Run))" =? 0.
 
 (* ---- pkg/action/rollback.go ---- *)
 
@@ -66,17 +66,17 @@ Definition c_rb_missing (m : menv) : bool := negb (m_b m "previousVersionExist")
 
 (* ---- pkg/action/uninstall.go ---- *)
 
-Definition c_un_none (m : menv) : bool := m_n m "History.len" <? 1.
+Definition c_un_none (m : menv) : bool := m_n m "len(History)" <? 1.
 Definition c_un_already (m : menv) : bool := status_eqb (m_s m "sorted(History)[last].status") SUninstalled.
 (* Uninstall.deleteRelease: something left to delete after the keep filter *)
-Definition c_un_delete (m : menv) : bool := 0 <? m_n m "Build.len".
+Definition c_un_delete (m : menv) : bool := 0 <? m_n m "len(Build)".
 
 (* ---- pkg/action/hooks.go ---- *)
 
 (* Configuration.execHook: the hook is registered for the event *)
 Definition c_hook_event (m : menv) : bool := event_eqb (m_e m "arg2") (m_e m "each(each(arg1.hooks).events)").
 (* no delete policy -> before-hook-creation *)
-Definition c_hook_default (m : menv) : bool := m_n m "each(hookByWeight(executingHooks)).deletePolicies.len" =? 0.
+Definition c_hook_default (m : menv) : bool := m_n m "len(each(hookByWeight(executingHooks)).deletePolicies)" =? 0.
 (* hookByWeight.Less *)
 Definition c_hook_less (m : menv) : bool :=
   if m_n m "recv[arg1].weight" =? m_n m "recv[arg2].weight"
@@ -85,7 +85,7 @@ Definition c_hook_less (m : menv) : bool :=
 (* Configuration.deleteHookByPolicy *)
 Definition c_hook_crd (m : menv) : bool := vstr_eqb (m_str m "arg1.kind") "CustomResourceDefinition".
 Definition c_hook_policy (m : menv) : bool := m_b m "hookHasDeletePolicy(arg1,arg2)".
-Definition c_hook_delete_failed (m : menv) : bool := 0 <? m_n m "Delete.len".
+Definition c_hook_delete_failed (m : menv) : bool := 0 <? m_n m "len(Delete)".
 (* hookHasDeletePolicy: the loop body *)
 Definition c_policy_match (m : menv) : bool := policy_eqb (m_p m "arg2") (m_p m "each(arg1.deletePolicies)").
 
@@ -106,16 +106,16 @@ Definition c_keep_value (m : menv) : bool :=
 (* Storage.Create: a history limit is set *)
 Definition c_create_limit (m : menv) : bool := 0 <? m_n m "MaxHistory".
 (* Storage.Deployed: no deployed revision *)
-Definition c_deployed_none (m : menv) : bool := m_n m "DeployedAll.len" =? 0.
+Definition c_deployed_none (m : menv) : bool := m_n m "len(DeployedAll)" =? 0.
 (* Storage.removeLeastRecent *)
-Definition c_rlr_fits (m : menv) : bool := m_n m "History.len" <=? m_n m "arg2".
-Definition c_rlr_enough (m : menv) : bool := m_n m "sorted(History).len" - m_n m "toDelete.len" =? m_n m "arg2".
+Definition c_rlr_fits (m : menv) : bool := m_n m "len(History)" <=? m_n m "arg2".
+Definition c_rlr_enough (m : menv) : bool := m_n m "len(sorted(History))" - m_n m "len(toDelete)" =? m_n m "arg2".
 Definition c_rlr_has_deployed (m : menv) : bool := negb (m_nil m "Deployed").
 Definition c_rlr_other (m : menv) : bool := negb (m_n m "each(sorted(History)).version" =? m_n m "Deployed.version").
-Definition c_rlr_no_error (m : menv) : bool := m_n m "errs.len" =? 0.
-Definition c_rlr_one_error (m : menv) : bool := m_n m "errs.len" =? 1.
+Definition c_rlr_no_error (m : menv) : bool := m_n m "len(errs)" =? 0.
+Definition c_rlr_one_error (m : menv) : bool := m_n m "len(errs)" =? 1.
 (* Storage.Last: no revision at all *)
-Definition c_last_none (m : menv) : bool := m_n m "History.len" =? 0.
+Definition c_last_none (m : menv) : bool := m_n m "len(History)" =? 0.
 
 (* ---- pkg/release/v1/status.go, pkg/release/util/sorter.go ---- *)
 
@@ -224,7 +224,7 @@ Definition znat (n : nat) : Z := Z.of_nat n.
 
 (* the answer of Storage.History / .Last: read errors are not in the model (an empty answer
    stands for "not found"), so the error is absent and the length decides *)
-Definition env_hist (h : list release) : menv := set_n "History.len" (zlen h) env0.
+Definition env_hist (h : list release) : menv := set_n "len(History)" (zlen h) env0.
 Definition env_flags (fl : flags) : menv := set_flags (flag_env fl) env0.
 
 (* ================================================================== *)
@@ -248,7 +248,7 @@ Definition hooks_for_d (ev : event) (hs : list hook) : list hook :=
      (filter (fun e => c_hook_event (set_e "arg2" ev (set_e "each(each(arg1.hooks).events)" e env0))) (h_events h))) hs.
 
 Definition effective_policies_d (h : hook) : list policy :=
-  if c_hook_default (set_n "each(hookByWeight(executingHooks)).deletePolicies.len" (zlen (h_policies h)) env0)
+  if c_hook_default (set_n "len(each(hookByWeight(executingHooks)).deletePolicies)" (zlen (h_policies h)) env0)
   then [BeforeHookCreation] else h_policies h.
 
 Definition has_policy_d (h : hook) (p : policy) : bool :=
@@ -268,7 +268,7 @@ Fixpoint prune_pick_d (h : list release) (deployed : option nat) (total maxkeep 
   match h with
   | [] => []
   | r :: t =>
-      if c_rlr_enough (set_n "sorted(History).len" (znat total) (set_n "toDelete.len" (znat picked)
+      if c_rlr_enough (set_n "len(sorted(History))" (znat total) (set_n "len(toDelete)" (znat picked)
                       (set_n "arg2" (znat maxkeep) env0)))
       then []
       else if c_rlr_has_deployed (set_nil "Deployed" (match deployed with Some _ => false | None => true end) env0)
@@ -286,14 +286,14 @@ Definition remove_least_recent_d (maxkeep : nat) : prog serr :=
   match h with
   | [] => Ret SNotFound
   | _ =>
-      if c_rlr_fits (set_n "History.len" (zlen h) (set_n "arg2" (znat maxkeep) env0)) then Ret SOk
+      if c_rlr_fits (set_n "len(History)" (zlen h) (set_n "arg2" (znat maxkeep) env0)) then Ret SOk
       else
         ds <- perform SDeployedAll ;;
-        let dep := if c_deployed_none (set_n "DeployedAll.len" (zlen ds) env0) then None
+        let dep := if c_deployed_none (set_n "len(DeployedAll)" (zlen ds) env0) then None
                    else match max_rev_of ds with Some d => Some (rev d) | None => None end in
         let picks := prune_pick_d (sort_by_rev h) dep (List.length h) maxkeep 0 in
         r <- delete_all picks ;;
-        let m := set_n "errs.len" (znat (fst r)) env0 in
+        let m := set_n "len(errs)" (znat (fst r)) env0 in
         if c_rlr_no_error m then Ret SOk
         else if c_rlr_one_error m then Ret (snd r)
         else Ret SFail
@@ -315,7 +315,7 @@ Definition delete_hook_by_policy_d (h : hook) (p : policy) : prog bool :=
   else if c_hook_policy (set_b "hookHasDeletePolicy(arg1,arg2)" (has_policy h p) env0) then
     ok <- perform (KDelete [h_res h]) ;;
     (* the model's answer of a delete: true = the error list is empty *)
-    if c_hook_delete_failed (set_n "Delete.len" (if ok then 0%Z else 1%Z) env0) then Ret false
+    if c_hook_delete_failed (set_n "len(Delete)" (if ok then 0%Z else 1%Z) env0) then Ret false
     else perform (KWaitDelete [h_res h])
   else Ret true.
 
@@ -346,7 +346,7 @@ Section OpsD.
           if negb pre then Ret (OErr EOtherErr) else
           record_release rel ;;;
           let todel := filter (fun r => negb (manifest_keep r)) (manifest rel) in
-          delok <- (if c_un_delete (set_n "Build.len" (zlen todel) env0)
+          delok <- (if c_un_delete (set_n "len(Build)" (zlen todel) env0)
                     then perform (KDelete todel) else Ret true) ;;
           if negb delok then Ret (OErr EOtherErr) else
           w <- perform (KWaitDelete todel) ;;
@@ -427,7 +427,7 @@ Section OpsD.
     if negb avail then Ret (OErr ENameInUse) else
     let rel0 := mkRelease 1 SPendingInstall cid vid mani hks in
     let resources := stamp_all rn ns mani in
-    adopt <- (if c_inst_check (set_n "Build.len" (zlen resources) (env_flags fl))
+    adopt <- (if c_inst_check (set_n "len(Build)" (zlen resources) (env_flags fl))
               then perform (KExisting resources (f_take_ownership fl))
               else Ret (Some [])) ;;
     match adopt with
@@ -459,7 +459,7 @@ Section OpsD.
             | SOk =>
                 pre <- run_hooks fl rel PreInstall ;;
                 if negb pre then install_fail fl rel else
-                let m := set_n "arg2.len" (zlen adopted) (set_n "arg3.len" (zlen resources) env0) in
+                let m := set_n "len(arg2)" (zlen adopted) (set_n "len(arg3)" (zlen resources) env0) in
                 ok <- (if c_inst_create m then perform (KCreate resources)
                        else if c_inst_update m then u <- perform (KUpdate adopted resources) ;; Ret (fst u)
                        else Ret true) ;;
@@ -476,13 +476,13 @@ Section OpsD.
   (* ---- upgrade.go ---- *)
   Definition upgrade_fail_d (fl : flags) (up : release) (created : list res) : prog outcome :=
     record_release (with_status up SFailed) ;;;
-    cleaned <- (if c_fail_cleanup (set_n "arg2.len" (zlen created) (env_flags fl))
+    cleaned <- (if c_fail_cleanup (set_n "len(arg2)" (zlen created) (env_flags fl))
                 then perform (KDelete created) else Ret true) ;;
     if negb cleaned then Ret (OErr EOtherErr) else
     if f_atomic fl then
       h <- perform SHistory ;;
       let good := filter (fun r => c_fail_good (set_s "it.status" (st r) env0)) h in
-      if c_fail_none (set_n "filtered(NewHistory.Run).len" (zlen good) env0) then Ret (OErr EOtherErr) else
+      if c_fail_none (set_n "len(filtered(NewHistory.Run))" (zlen good) env0) then Ret (OErr EOtherErr) else
       match max_rev_of good with
       | None => Ret (OErr EOtherErr)
       | Some g =>
@@ -503,7 +503,7 @@ Section OpsD.
         cur <- (if c_up_last_deployed ml then Ret (Some last)
                 else ds <- perform SDeployedAll ;;
                      (* Releases.Deployed *)
-                     if c_deployed_none (set_n "DeployedAll.len" (zlen ds) env0)
+                     if c_deployed_none (set_n "len(DeployedAll)" (zlen ds) env0)
                      then (if c_up_fallback (set_err "Deployed is Is driver.ErrNoDeployedReleases" true ml)
                            then Ret (Some last) else Ret None)
                      else Ret (max_rev_of ds)) ;;
